@@ -124,7 +124,9 @@ func streamHistory(r *hx.Rng, cfs []*cfile, bs *builtSet) {
 				// field: oracle-only histories (History.v has no such MarshalTo; after it no size is cached for the root, so the
 				// assignment is not the stale-cache finding G14)
 				scripts := [][]int{{10, 9, 5, 7, 7}, {10, 5, 9, 7, 5}, {0, 9, 7, 11, 7, 5}, {10, 11, 9, 7}, {0, 0, 9, 5, 7, 9, 7}, {10, 7, 9, 5, 10, 9, 7},
-					{10, 20, 21, 5, 7}, {21, 21, 20, 21, 7, 5}, {10, 20, 21, 21, 20, 7}}
+					{10, 20, 21, 5, 7}, {21, 21, 20, 21, 7, 5}, {10, 20, 21, 21, 20, 7},
+					// 22 = csproto.Clone whose result is dropped: the source goes on, and must not have been sized by it
+					{21, 21, 22, 21, 7, 5}, {10, 22, 21, 5, 7}, {0, 0, 22, 21, 21, 7}}
 				for k := 0; k < nPer+len(scripts); k++ {
 					h := &hist{google: google, md: md, mirror: dynamicpb.NewMessage(md), sized: map[string]bool{}}
 					hc := hcase{c: c, md: md, staleAt: -1, qAt: -1}
@@ -134,7 +136,7 @@ func streamHistory(r *hx.Rng, cfs []*cfile, bs *builtSet) {
 						script = scripts[k-nPer]
 						nops = len(script)
 						for _, c := range script {
-							hc.oracle = hc.oracle || c == 20
+							hc.oracle = hc.oracle || c == 20 || c == 22
 						}
 					}
 					for i := 0; i < nops; i++ {
@@ -150,6 +152,8 @@ func streamHistory(r *hx.Rng, cfs []*cfile, bs *builtSet) {
 						switch {
 						case choice == 20:
 							tok, kind = "TF", 'M'
+						case choice == 22:
+							tok, kind = "KS", 'R'
 						case choice < 5 || choice == 21: // mutation
 							var paths [][]int
 							singularPaths(h.mirror, nil, &paths)
